@@ -215,6 +215,9 @@ const CHAIN_SEEDS: &[&str] = &[
     "-- only a comment",
     "return (((1)))",
     "local s = [==[\nlong]==] .. 'x' .. \"y\" .. [[z]]\nreturn s:rep(2), #s, s[1]\n",
+    // a line comment ending in a word directly before every construct a rule replaces by generated text
+    "local a = -- the text string\n    `x{v}`\nif true then -- then word\n    f()\nelse -- else word\n    g()\nend\nif false then -- dead\n    f()\nelse -- kept word\n    g()\nend\nlocal b = -- cond word\n    if a then 1 else 2\nt.x -- target word\n    += 1\nlocal c = -- call word\n    obj:method()\nlocal d = -- sqrt word\n    math.sqrt(4)\nlocal e = -- idx word\n    t[\"k\"]\nlocal f = -- num word\n    0b11 // 2\nlocal g = -- assert word\n    assert(a, \"m\")\nlocal h = -- req word\n    require(\"./dep\")\nfor i = 1, 2 do -- loop word\n    continue -- cont word\nend\nfunction t:m() -- body word\n    return self -- ret word\nend\nreturn G -- global word\n",
+    "local a = f() --[[block word]] `x{v}` -- tail word\nlocal b = (g()) -- paren word\n;(h or i)() -- call word\nreturn a -- a word\n    , b -- b word\n",
 ];
 
 fn check_chains(tier: Tier, wd: &Watchdog) -> (u64, u64, u64, Vec<Violation>) {
@@ -296,6 +299,77 @@ fn check_batch() -> Vec<Violation> {
         }
     }
     v
+}
+
+const BUNDLE_MODULES: &[&str] = &[
+    "return 1;",
+    "local x = 1; return x;",
+    "-- a module\nlocal t = {}\nfunction t.f() return 1; end\nreturn t;\n",
+    "do return { a = 1 }; end",
+    "local M = {} -- c\nfor i = 1, 2 do if i then break; end end\nwhile true do continue; end\nreturn M -- tail\n",
+    "type T = number\nexport type U = T\nlocal v: T = 1\nreturn v :: U;\n",
+    "return function(...) return ...; end;",
+    "return `a{1}b`;",
+    "return nil",
+    "",
+    "local a = 1",
+    "return 1, 2",
+];
+
+const BUNDLE_ENTRIES: &[&str] = &[
+    "return require('./m')",
+    "local m = require('./m')\nlocal n = require(\"./m.lua\")\n-- a much longer entry file so that the byte offsets of the module fall inside it, with a comment and some more statements to be on the safe side\nlocal function use(...) return ... end\nreturn use(m, n);\n",
+    "require('./m');require('./n')\nreturn { require('./n'), (require('./m')) }",
+];
+
+/// bundling is a configuration too: every entry x module pair x generator, alone and followed by rules
+fn check_bundles(wd: &Watchdog) -> (u64, Vec<Violation>) {
+    let mut cases = Vec::new();
+    for entry in BUNDLE_ENTRIES {
+        for m in BUNDLE_MODULES {
+            for n in BUNDLE_MODULES.iter().step_by(3) {
+                for generator in ["retain_lines", "dense", "readable", "{name:'dense',column_span:1}"] {
+                    for rules in ["[]", "['remove_spaces','remove_comments','remove_types']", "['remove_empty_do','rename_variables','remove_unused_variable']"] {
+                        cases.push((*entry, *m, *n, generator, rules));
+                    }
+                }
+            }
+        }
+    }
+    let results: Vec<Vec<Violation>> = cases
+        .par_iter()
+        .map(|(entry, m, n, generator, rules)| {
+            let mut v = Vec::new();
+            let gen_json = if generator.starts_with('{') { generator.to_string() } else { format!("'{}'", generator) };
+            let config = format!("{{generator: {}, rules: {}, bundle: {{require_mode: 'path'}}}}", gen_json, rules);
+            let files = [("src/main.lua", *entry), ("src/m.lua", *m), ("src/n.lua", *n)];
+            let describe = || format!("entry {:?} requiring modules m = {:?}, n = {:?} with configuration {}", entry, m, n, config);
+            let replay = || json!({"kind": "bundle", "entry": entry, "m": m, "n": n, "config": config});
+            match wd.run(entry, || dl::process_memory(&files, &config, "src/main.lua", Some("out/main.lua"))) {
+                Err(e) => v.push(Violation { finding: None, summary: format!("{}\n--- {}", e, describe()), replay: replay() }),
+                Ok((res, errors)) => {
+                    if errors.iter().any(|e| e.starts_with("FATAL")) {
+                        v.push(Violation { finding: None, summary: format!("bundling aborted instead of reporting a per-file error: {:?}\n--- {}", errors, describe()), replay: replay() });
+                    } else if errors.is_empty() {
+                        match res.get("out/main.lua") {
+                            Err(_) => v.push(Violation { finding: None, summary: format!("no error and no output\n--- {}", describe()), replay: replay() }),
+                            Ok(text) => {
+                                let p1 = dl::parse(&text, false).err();
+                                let p2 = parser::parse(text.as_bytes(), Mode::Luau).err().map(|e| e.to_string());
+                                if p1.is_some() || p2.is_some() {
+                                    v.push(Violation { finding: None, summary: format!("the bundle does not parse again ({})\n--- {}\n--- output\n{}", p1.or(p2).unwrap_or_default(), describe(), text), replay: replay() });
+                                }
+                            }
+                        }
+                    } else if !errors.iter().all(|e| e.contains("main.lua")) {
+                        v.push(Violation { finding: None, summary: format!("an error does not name the file being processed: {:?}\n--- {}", errors, describe()), replay: replay() });
+                    }
+                }
+            }
+            v
+        })
+        .collect();
+    (cases.len() as u64, results.into_iter().flatten().collect())
 }
 
 pub const NEST_KINDS: &[&str] = &["parentheses", "tables", "unary", "functions", "do blocks", "calls", "if statements", "index"];
@@ -428,6 +502,11 @@ pub fn run(tier: Tier) -> Report {
     report.transitions = transitions;
     report.violations.extend(v);
     report.violations.extend(check_batch());
+    let (n, v) = check_bundles(&wd);
+    report.evaluations += n;
+    report.distinct_nontrivial += n;
+    report.violations.extend(v);
+    report.set("bundle_cases", n);
     report.set("rule_chain_depth", tier.pick(2, 3) as u64);
     // (iv)
     let (n, observed, v) = check_nesting();
